@@ -1,4 +1,95 @@
-(* C17 — placeholder until Proofs/ExportSM_proofs.v lands *)
-From TsRs Require Import Base.Str Base.Outcome Model.ExportSM.
-Theorem C17_placeholder : forall fs, create_dir_all fs [] = Ok fs.
-Proof. reflexivity. Qed.
+(* C17 — export failures are returned as errors and do not poison later exports.  Statements only; proofs in
+   Proofs/ExportSM_proofs.v over Model/ExportSM.v (outcomes Ok / Err / Panic; the file system fails exactly where the
+   property lists obstacles). *)
+From TsRs Require Import Base.Str Base.Outcome Gen.Tables Model.Path Model.Merge Model.Imports Model.ExportSM
+  Spec.PathOracle Proofs.Path_proofs Proofs.ExportSM_proofs.
+From Coq Require Import List.
+Import ListNotations.
+
+(* a failed write is not recorded as done: export_and_merge returning an error leaves the WHOLE state (files, registry,
+   poison flag) exactly as it was — so repeating the call once the obstacle is gone is repeating it from the state in which
+   the failure never happened *)
+Theorem C17_failed_write_changes_nothing :
+  forall st p name text st' e, export_and_merge st p name text = (st', Err e) -> st' = st.
+Proof. exact eam_err. Qed.
+
+(* a failed T::export(): nothing recorded, the poison flag as it was, every regular file as it was (directories created
+   on the way stay; a later successful export creates them all the same) *)
+Theorem C17_failed_export_is_not_recorded :
+  forall cfg U st i st' e, names_ok (c_cwd cfg) ->
+    step cfg U st (Export i) = (st', Err e) ->
+    s_reg st' = s_reg st /\ s_poisoned st' = s_poisoned st /\
+    (forall q c, fs_get (s_fs st') q = Some (File c) <-> fs_get (s_fs st) q = Some (File c)).
+Proof. intros cfg U st i st' e Hc. exact (export_failed_frame cfg U Hc st i st' e). Qed.
+
+(* a failed export_all / export_all_to, wherever in the walk it fails: every other file untouched — regular files and
+   registry entries change only at target paths of types reachable from the root — and no recorded name is lost *)
+Theorem C17_failed_export_all_touches_nothing_else :
+  forall cfg U st i dir st' r, names_ok (c_cwd cfg) ->
+    export_all_into cfg U st i dir = (st', r) ->
+    reg_le (s_reg st) (s_reg st') /\
+    (forall q, ~ (exists j, reach U i j /\ target cfg U j dir = Some q) ->
+       forall c, fs_get (s_fs st') q = Some (File c) <-> fs_get (s_fs st) q = Some (File c)).
+Proof. intros cfg U st i dir st' r Hc H. destruct (export_all_frame cfg U Hc st i dir st' r H) as (A & B & _). split; [exact A | exact B]. Qed.
+
+(* the four obstacles are errors, never panics, with the state as it was: *)
+(* .. the type is not exportable (every entry point) *)
+Theorem C17_not_exportable_is_an_error :
+  forall cfg U st i dir, t_out (tget U i) = None ->
+    step cfg U st (Export i) = (st, Err err_cannot_export) /\ step cfg U st (ExportAll i) = (st, Err err_cannot_export) /\
+    step cfg U st (ExportAllTo i dir) = (st, Err err_cannot_export).
+Proof. exact not_exportable_is_error. Qed.
+
+(* .. the target path climbs above the file system root (C08_absolute_above_root says when `absolute` errs) *)
+Theorem C17_above_root_is_an_error :
+  forall cfg U st i op e, t_out (tget U i) = Some op ->
+    absolute (c_cwd cfg) (path_join (default_out_dir cfg) op) = Err e ->
+    step cfg U st (Export i) = (st, Err err_cannot_export) /\ step cfg U st (ExportAll i) = (st, Err err_cannot_export).
+Proof. exact above_root_is_error. Qed.
+
+(* .. the target itself is a directory *)
+Theorem C17_target_is_a_directory_is_an_error :
+  forall cfg U st i path cs buffer, absolute (c_cwd cfg) path = Ok cs ->
+    export_to_string (c_esm cfg) (c_cwd cfg) U i (default_out_dir cfg) = Ok buffer ->
+    s_poisoned st = false -> reg_get (s_reg st) (names_of_abs cs) = None ->
+    fs_lookup (s_fs st) (names_of_abs cs) = Some Dir ->
+    exists st' e, export_to cfg U st i path = (st', Err e) /\
+                  s_reg st' = s_reg st /\ s_poisoned st' = s_poisoned st /\
+                  (forall q c, fs_get (s_fs st') q = Some (File c) <-> fs_get (s_fs st) q = Some (File c)).
+Proof. exact target_is_directory. Qed.
+
+(* .. a component of the path is a regular file *)
+Theorem C17_path_component_is_a_file_is_an_error :
+  forall cfg U st i path cs buffer d pre n rest c, absolute (c_cwd cfg) path = Ok cs ->
+    export_to_string (c_esm cfg) (c_cwd cfg) U i (default_out_dir cfg) = Ok buffer ->
+    parent_of (names_of_abs cs) = Some d -> d = pre ++ n :: rest -> fs_lookup (s_fs st) (pre ++ [n]) = Some (File c) ->
+    exists e, export_to cfg U st i path = (st, Err e).
+Proof. exact parent_is_file. Qed.
+
+(* non-vacuity, and the retry: the target is a directory -> Err; the obstacle is removed -> the retry succeeds and the
+   tree equals the tree of the run in which the failure never happened; a regular file in the way likewise *)
+Module C17_ex.
+Local Open Scope string_scope.
+Definition l (s : String.string) : str := lit s.
+Definition A : tinfo := {| t_ident := l "A"; t_out := Some (l "sub/A.ts"); t_decl := l "export type A = number;"; t_visits := []; t_wg := 0%nat |}.
+Definition U : universe := [A].
+Definition cfg : config := {| c_esm := false; c_cwd := [l "w"]; c_env := None |}.
+Definition pA : apath := [l "w"; l "bindings"; l "sub"; l "A.ts"].
+Definition go (h : list op) := run cfg U (init_state []) h.
+End C17_ex.
+Example C17_nonvacuous :
+  snd (C17_ex.go [MkDir C17_ex.pA; Export 0%nat]) = [Ok tt; Err io_error] /\
+  snd (C17_ex.go [MkDir C17_ex.pA; Export 0%nat; Remove C17_ex.pA; Export 0%nat]) = [Ok tt; Err io_error; Ok tt; Ok tt] /\
+  files_of (s_fs (fst (C17_ex.go [MkDir C17_ex.pA; Export 0%nat; Remove C17_ex.pA; Export 0%nat]))) = files_of (s_fs (fst (C17_ex.go [Export 0%nat]))) /\
+  snd (C17_ex.go [MkFile (map lit ["w"; "bindings"]%string) []; ExportAll 0%nat]) = [Ok tt; Err io_error] /\
+  files_of (s_fs (fst (C17_ex.go [MkFile (map lit ["w"; "bindings"]%string) []; ExportAll 0%nat; Remove (map lit ["w"; "bindings"]%string); ExportAll 0%nat]))) =
+    files_of (s_fs (fst (C17_ex.go [ExportAll 0%nat]))).
+Proof. repeat split; vm_compute; reflexivity. Qed.
+
+Print Assumptions C17_failed_write_changes_nothing.
+Print Assumptions C17_failed_export_is_not_recorded.
+Print Assumptions C17_failed_export_all_touches_nothing_else.
+Print Assumptions C17_not_exportable_is_an_error.
+Print Assumptions C17_above_root_is_an_error.
+Print Assumptions C17_target_is_a_directory_is_an_error.
+Print Assumptions C17_path_component_is_a_file_is_an_error.
